@@ -1038,8 +1038,11 @@ def _literal_value(node: ast.AST) -> bool:
 
     if isinstance(node, ast.Call):
         if isinstance(node.func, ast.Name) and node.func.id in constants.LITERAL_VALUE_FUNCTIONS:
+            if any(keyword.arg is None for keyword in node.keywords):
+                raise ValueError("Cannot find a deterministic value for a call with **kwargs")
             args = [literal_value(arg) for arg in node.args]
-            return getattr(builtins, node.func.id)(*args)
+            kwargs = {keyword.arg: literal_value(keyword.value) for keyword in node.keywords}
+            return getattr(builtins, node.func.id)(*args, **kwargs)
 
     return ast.literal_eval(node)
 
